@@ -3,7 +3,7 @@
 From Coq Require Import List Arith NArith Lia Bool ZifyN ZifyNat ZifyBool.
 From FS Require Import Sx Model.Path Model.Fs Model.RootPath Model.CopyFs Model.CopyFsSpec
   Proofs.Lex Proofs.PathP Proofs.FsP Proofs.RootPathStrP Proofs.FsCopyFrameP Proofs.FsCopyInvP
-  Proofs.FsCopySafeP Proofs.FsCopyLinksP Proofs.FsCopySysP Proofs.CopyFsP Proofs.CopyRecP Proofs.CopyFsRec2P Proofs.CopyFsTopP.
+  Proofs.FsCopySafeP Proofs.FsCopyLinksP Proofs.FsCopySysP Proofs.CopyFsP Proofs.CopyFsNrP Proofs.CopyRecP Proofs.CopyFsRec2P Proofs.CopyFsTopP.
 Import ListNotations.
 Open Scope N_scope.
 Open Scope bool_scope.
@@ -135,22 +135,40 @@ Section Top2.
   Qed.
 
   (* ---- copier.copy onto the destination root: the source must be a directory ---- *)
-  Lemma copy_rec_root_spec k o sl src s s' r :
+  Section Reads.
+    Variable R : N -> Prop.
+    Variables SP SPN : bytes -> Prop.
+    Hypothesis HA : forall f p i, Ctx f -> SP p -> resolve_ino c f p false = inl i -> R i.
+    Hypothesis HB : forall f p i n, Ctx f -> SP p -> resolve_ino c f p false = inl i -> get f i = Some n ->
+      kind_is_link n = false -> SPN p.
+    Hypothesis HC : forall f p j, Ctx f -> SPN p -> resolve_ino c f p true = inl j -> R j.
+    Hypothesis HD : forall f p j pp es n, Ctx f -> SPN p -> resolve_ino c f p true = inl j ->
+      dir_of f j = Some (pp, es) -> In n (map fst es) -> SP (join2 p n).
+    Hypothesis HN : forall p, SPN p -> SP p.
+    Notation rok := (CopyRecP.rok R).
+    Notation pok := (CopyRecP.pok SPN).
+
+  Lemma copy_rec_root_spec_r k o sl src s s' r :
     Ctx (s_fs s) -> lok s -> s_parents s = [] ->
     (forall ino fi, snd (sys_lstat c (s_fs s) src) = RStat ino fi -> kind_is_dir fi = true) ->
+    SP src -> rok s ->
     copy_rec (S k) c o sl src [] (render dcs) false [] [] s = (s', r) ->
-    stays_ok dr s s' r /\ (ok_res r -> s_parents s' = []).
+    (stays_ok dr s s' r /\ (ok_res r -> s_parents s' = [])) /\ rok s'.
   Proof.
-    intros C L Hst Hsrc H. cbn [copy_rec] in H. rewrite bind_run, sys_run in H. cbn [fst snd] in H. rewrite sys_lstat_fs in H.
+    intros C L Hst Hsrc Hsp Rk H. cbn [copy_rec] in H. rewrite bind_run, sys_run in H. cbn [fst snd] in H. rewrite sys_lstat_fs in H.
     assert (Hdr : is_dir (s_fs s) dr = true) by (eapply chain_end_dir; apply (cx_root _ _ _ _ _ C)).
     assert (Hsame : forall s1 (r1 : unit + N), s_fs s1 = s_fs s -> s_links s1 = s_links s -> s_parents s1 = s_parents s ->
               stays_ok dr s s1 r1 /\ (ok_res r1 -> s_parents s1 = [])).
     { intros s1 r1 E1 E2 E3. split; [apply stays_stays_ok; apply stays_same; auto|]. intros _. congruence. }
     destruct (snd (sys_lstat c (s_fs s) src)) as [|e|ino fi| | |] eqn:Esrc;
-      try (unfold fail in H; injection H as <- <-; apply Hsame; reflexivity).
+      try (unfold fail in H; injection H as <- <-; split; [apply Hsame; reflexivity|exact Rk]).
     pose proof (Hsrc ino fi eq_refl) as Hkd.
+    destruct (sys_lstat_ino c _ _ _ _ Esrc) as [Elr Elg].
+    assert (Hsn : SPN src).
+    { eapply HB; eauto. unfold kind_is_dir in Hkd. unfold kind_is_link. destruct (i_kind fi); auto; discriminate. }
     rewrite bind_run, log_read_run in H. cbn [s_fs s_links s_parents s_reads] in H.
     set (s1 := {| s_fs := s_fs s; s_links := s_links s; s_parents := s_parents s; s_reads := ino :: s_reads s |}) in *.
+    assert (Rk1 : rok s1) by (eapply rok_cons; [reflexivity| |exact Rk]; eapply HA; eauto).
     assert (C1 : Ctx (s_fs s1)) by exact C.
     destruct (lstat_opt_root s1 C1) as (n & Hkn & El & Eln).
     rewrite bind_run, Eln in H. cbv zeta in H. cbn [is_nil fst snd andb negb] in H.
@@ -168,6 +186,7 @@ Section Top2.
       rewrite E2. rewrite Hkd. reflexivity. }
     rewrite bind_run, Epr in H.
     assert (C3 : Ctx (s_fs s3)) by exact C.
+    assert (Rk3 : rok s3) by exact Rk1.
     unfold kind_is_dir in Hkd. destruct (i_kind fi) as [pp es|?|?|? ?] eqn:Ek; try discriminate.
     (* copy_directory_only does nothing *)
     destruct (lstat_opt_root s3 C3) as (n2 & Hkn2 & El2 & _).
@@ -178,21 +197,20 @@ Section Top2.
     match type of H with context [sys_readdir c (s_fs ?sX) src] => set (s4 := sX) in H end.
     assert (F4 : s_fs s4 = s_fs s) by reflexivity. assert (EL4 : s_links s4 = s_links s) by reflexivity.
     assert (C4 : Ctx (s_fs s4)) by exact C.
+    assert (Rk4 : rok s4) by exact Rk1.
     assert (Hany : forall s9 (r9 : unit + N), s_fs s9 = s_fs s -> s_links s9 = s_links s ->
               stays_ok dr s s9 r9).
     { intros s9 r9 E1 E2. split; [rewrite E1; exact C|]. split; [rewrite E1; apply above_refl|].
       split; [intros _ Lx; unfold CopyFsP.lok; rewrite E1, E2; exact Lx|rewrite E1; apply keeps_new_refl]. }
     destruct (snd (sys_readdir c (s_fs s4) src)) as [|e|i0 n0|b0|names|i0] eqn:Er;
-      try (unfold fail in H; injection H as <- <-; split; [apply Hany; reflexivity|intros [a Ha]; discriminate]).
+      try (unfold fail in H; injection H as <- <-; split; [|exact Rk4]; split; [apply Hany; reflexivity|intros [a Ha]; discriminate]).
     pose proof (readdir_names c f0 dr (s_fs s4) src names (cx_inv _ _ _ _ _ C4) Er) as Hnames.
+    pose proof (readdir_children c f0 dr dcs SP SPN HD (s_fs s4) src names C4 Hsn Er) as Hkids.
     rewrite bind_run in H. unfold get_fs at 1 in H. rewrite bind_run in H.
-    assert (Hlog : forall ff sX, exists sY, (match resolve_ino c ff src true with inl di => log_read di | inr _ => ret tt end) sX = (sY, inl tt)
-                          /\ s_fs sY = s_fs sX /\ s_links sY = s_links sX /\ s_parents sY = s_parents sX).
-    { intros ff sX. destruct (resolve_ino c ff src true); [rewrite log_read_run|cbn [ret]];
-        eexists; (split; [reflexivity|repeat split; reflexivity]). }
     match type of H with context [(match resolve_ino c ?ff src true with inl di => log_read di | inr _ => ret tt end) ?sX] =>
-      destruct (Hlog ff sX) as (s5 & E5 & F5 & EL5 & Pa5); rewrite E5 in H end.
+      destruct (log_dir_reads c f0 dr dcs R SPN HC ff src sX C4 Hsn) as (s5 & E5 & F5 & EL5 & Pa5 & Rd5); rewrite E5 in H end.
     cbn [s_fs s_links s_parents s4 s3 s2 s1 CopyRecP.setp] in F5, EL5, Pa5.
+    assert (Rk5 : rok s5) by (apply Rd5; exact Rk4).
     assert (C5 : Ctx (s_fs s5)) by (rewrite F5; auto).
     assert (L5 : lok s5) by (unfold CopyFsP.lok; rewrite F5, EL5; exact L).
     assert (S05 : stays_ok dr s s5 (@inl unit N tt)) by (apply Hany; auto).
@@ -202,40 +220,60 @@ Section Top2.
     set (I := fun s0 : cst => Ctx (s_fs s0) /\ s_parents s0 = Pst).
     assert (HI : forall s0, I s0 -> Ctx (s_fs s0) /\ is_dir (s_fs s0) dr = true).
     { intros s0 (C0 & _). split; auto. eapply chain_end_dir. apply (cx_root _ _ _ _ _ C0). }
-    assert (Hg : forall n1 sa sb rb, okn n1 -> I sa -> lok sa ->
+    assert (HpkP : pok Pst) by (constructor; [exact Hsn|constructor]).
+    set (PK := fun n : bytes => okn n /\ SP (join2 src n)).
+    assert (Hg : forall n1 sa sb rb, PK n1 -> I sa -> lok sa -> rok sa ->
               copy_rec k c o sl (join2 src n1) (join2 [] n1) (join2 (render dcs) n1) true [] [] sa = (sb, rb) ->
-              stays_ok dr sa sb rb /\ (ok_res rb -> I sb)).
-    { intros n1 sa sb rb Hn (Ca & Pa) La Ha.
+              stays_ok dr sa sb rb /\ (ok_res rb -> I sb) /\ rok sb).
+    { intros n1 sa sb rb [Hn Hspk] (Ca & Pa) La Rka Ha.
       rewrite (join2_names dcs n1 Hdn (proj1 Hn)) in Ha.
       replace (dcs ++ [n1]) with (dcs ++ [] ++ [] ++ [n1]) in Ha by reflexivity.
       assert (Hca : chain (s_fs sa) dr [] dr) by (constructor; eapply chain_end_dir; apply (cx_root _ _ _ _ _ Ca)).
-      destruct (copy_rec_spec c f0 dr dcs k o sl (join2 src n1) (join2 [] n1) [] dr [] n1 true [] [] sa sb rb Ca Hca) as (Sb & Pb); auto;
+      destruct (copy_rec_spec_r c f0 dr dcs R SP SPN HA HB HC HD HN k o sl (join2 src n1) (join2 [] n1) [] dr [] n1 true [] [] sa sb rb Ca Hca) as ((Sb & Pb) & Rkb); auto;
         try apply Hn.
       { rewrite Pa. reflexivity. }
-      split; auto. intros Hr. split; [apply Sb|].
+      { rewrite Pa. exact HpkP. }
+      split; auto. split; [|exact Rkb]. intros Hr. split; [apply Sb|].
       destruct (Pb Hr) as [Eq|[Eq _]]; rewrite Eq, Pa; reflexivity. }
     assert (I5 : I s5) by (split; [exact C5|rewrite Pa5; reflexivity]).
+    assert (HPK : Forall PK (sorted_names names)).
+    { apply sorted_names_forall. apply Forall_forall. intros n1 Hn1. rewrite Forall_forall in Hnames, Hkids. split; auto. }
     destruct (each_m (fun n1 => copy_rec k c o sl (join2 src n1) (join2 [] n1) (join2 (render dcs) n1) true [] []) (sorted_names names) s5)
       as [s6 [[]|e]] eqn:E6.
     2:{ injection H as <- <-.
-        destruct (each_m_inv c f0 dr dcs I _ dr HI Hg _ (sorted_names_forall _ _ Hnames) s5 s6 _ I5 L5 E6) as (S6 & _).
+        destruct (each_m_inv_r c f0 dr dcs R PK I _ dr HI Hg _ HPK s5 s6 _ I5 L5 Rk5 E6) as (S6 & _ & Rk6).
+        split; [|exact Rk6].
         split; [|intros [a Ha]; discriminate].
         eapply (stays_ok_seq c f0 dr dcs dr s s5 s6 tt); eauto. }
-    destruct (each_m_inv c f0 dr dcs I _ dr HI Hg _ (sorted_names_forall _ _ Hnames) s5 s6 _ I5 L5 E6) as (S6 & I6).
+    destruct (each_m_inv_r c f0 dr dcs R PK I _ dr HI Hg _ HPK s5 s6 _ I5 L5 Rk5 E6) as (S6 & I6 & Rk6).
     destruct (I6 (ex_intro _ tt eq_refl)) as (C6 & Pa6).
     rewrite bind_run, pop_parent_run in H. rewrite Pa6 in H. cbn [removelast Pst] in H.
     set (s7 := CopyRecP.setp s6 []) in H.
     assert (S07 : stays_ok dr s s7 (@inl unit N tt)).
     { eapply (stays_ok_seq c f0 dr dcs dr s s5 s7 tt); [exact Hdr|exact S05|].
       eapply (stays_ok_seq c f0 dr dcs dr s5 s6 s7 tt); [exact Hd5|exact S6|]. apply stays_ok_setp. exact C6. }
+    assert (Rk7 : rok s7) by exact Rk6.
     cbn [orb] in H. unfold copy_file_timestamp in H. cbv zeta in H.
     rewrite bind_run, sys_run in H. cbn [fst snd] in H.
     destruct (sys_utimens c (s_fs s7) (render dcs) _) as [f8 r8] eqn:E8. cbn [fst snd] in H.
     pose proof (utimens_root (s_fs s7) _ f8 r8 C6 E8) as M8.
     rewrite expect_ok_run in H. injection H as <- <-.
+    split; [|exact Rk7].
     split; [|intros _; reflexivity].
     eapply (stays_ok_seq c f0 dr dcs dr s s7 _ tt); [exact Hdr|exact S07|].
     apply stays_stays_ok. apply (stays_meta c f0 dr dcs dr s7 f8 M8).
+  Qed.
+  End Reads.
+
+  Lemma copy_rec_root_spec k o sl src s s' r :
+    Ctx (s_fs s) -> lok s -> s_parents s = [] ->
+    (forall ino fi, snd (sys_lstat c (s_fs s) src) = RStat ino fi -> kind_is_dir fi = true) ->
+    copy_rec (S k) c o sl src [] (render dcs) false [] [] s = (s', r) ->
+    stays_ok dr s s' r /\ (ok_res r -> s_parents s' = []).
+  Proof.
+    intros C L Hst Hsrc H.
+    pose proof (copy_rec_root_spec_r (fun _ => True) (fun _ => True) (fun _ => True)) as G.
+    eapply G; eauto; try (intros; exact I). intros i _. exact I.
   Qed.
 
   (* ---- a path above (or at) the root: MkdirAll finds it and does nothing ---- *)
